@@ -91,7 +91,14 @@ func c11Case(c *hx.Ctx, r *hx.RNG, idx int64) {
 			if r.Bool() {
 				text = x.Text(ft[0], -1)
 			} else {
-				text = string(x.Append(nil, ft[0], -1))
+				// into a caller's buffer with spare capacity, then without the prefix
+				pre := make([]byte, 3, 3+[]int{0, 5, 30, 200, 3000}[r.Intn(5)])
+				copy(pre, "|> ")
+				out := x.Append(pre, ft[0], -1)
+				if len(out) < 3 || string(out[:3]) != "|> " {
+					panic(fmt.Sprintf("Append overwrote the caller's prefix: %q", trunc120(string(out))))
+				}
+				text = string(out[3:])
 			}
 		}
 	})
